@@ -19,7 +19,7 @@ func genMarshal(tier string, seed uint64) {
 	if tier == "thorough" {
 		n = 1500
 	}
-	for _, a := range atlases {
+	for _, a := range zooAtlases() {
 		for _, t := range rootTypes() {
 			k := t.Kind()
 			if k == reflect.Func || k == reflect.Chan || k == reflect.Complex64 {
@@ -97,7 +97,7 @@ func genRemarshal(tier string, seed uint64) {
 	if tier == "thorough" {
 		n = 500
 	}
-	for _, a := range atlases {
+	for _, a := range zooAtlases() {
 		for _, t := range roundtripTypes(a) {
 			for i := 0; i < n; i++ {
 				for _, f := range []string{"cbor", "json"} {
@@ -116,7 +116,7 @@ func genClone(tier string, seed uint64) {
 	if tier == "thorough" {
 		n = 800
 	}
-	for _, a := range atlases {
+	for _, a := range zooAtlases() {
 		for _, t := range roundtripTypes(a) {
 			for i := 0; i < n; i++ {
 				emit("clone %d %d %s", a.id, tid(t), genValue(r, t, genOpts{depth: 1 + r.intn(4), roundtrip: true, tagged: a.id == 2 || a.id == 3, cbor: true}))
